@@ -118,6 +118,7 @@ type rawDirective struct {
 	kw   string
 	text string
 	pos  string
+	pkg  string
 }
 
 func (cs *Contracts) parseFile(root, file string) error {
@@ -154,7 +155,7 @@ func (cs *Contracts) parseFile(root, file string) error {
 			continue
 		}
 		if m := kwRe.FindString(body); m != "" {
-			dirs = append(dirs, rawDirective{kw: m, text: strings.TrimSpace(body[len(m):]), pos: fmt.Sprintf("%s:%d", file, ln)})
+			dirs = append(dirs, rawDirective{kw: m, text: strings.TrimSpace(body[len(m):]), pos: fmt.Sprintf("%s:%d", file, ln), pkg: pkgPath})
 		} else if len(dirs) > 0 {
 			dirs[len(dirs)-1].text += " " + body
 		} else {
@@ -166,6 +167,7 @@ func (cs *Contracts) parseFile(root, file string) error {
 	var curLock *LockDecl
 	var curPred *Pred
 	for _, d := range dirs {
+		pkgPath = d.pkg
 		switch d.kw {
 		case "func", "trusted func":
 			key := d.text
